@@ -76,9 +76,20 @@ theorem getoptPath_top (c : Cfg) (name : Bytes) (pre : List Opt) (o0 : Opt) (pos
   unfold getoptPath getoptSecidx
   have he : name.isEmpty = false := by cases name <;> simp_all
   simp only [he, Bool.false_eq_true, if_false]
-  rw [secidxLoop]
-  simp only [he, Bool.false_eq_true, if_false, takeWhile_plain name hs, List.drop_length, List.isEmpty_nil, Bool.not_false, Bool.and_self, if_true, hl]
-  split <;> simp
+  cases hk : keyFirst c name false with
+  | some i =>
+    have : i = pre.length := by
+      unfold keyFirst at hk
+      split at hk
+      · rw [hl] at hk; injection hk with hk; exact hk.symm
+      · cases hk
+    subst this
+    simp
+  | none =>
+    simp only []
+    rw [secidxLoop]
+    simp only [he, Bool.false_eq_true, if_false, takeWhile_plain name hs, List.drop_length, List.isEmpty_nil, Bool.not_false, Bool.and_self, if_true, hl]
+    split <;> simp
 
 theorem getOpt_top (c : Cfg) (pre : List Opt) (o0 : Opt) (post : List Opt) (h : c.opts = pre ++ o0 :: post) :
     c.getOpt ⟨[], pre.length⟩ = some o0 := by
